@@ -4,7 +4,7 @@
    The relative form is invariant under rescaling of lengths, the absolute one is not (rational witness).
    `kernels_coplanar_form` records which of the two Geom/Kernels.v currently transcribes. *)
 From Coq Require Import Reals Lra QArith.
-From OM Require Import Base.Ops Base.Vec3 Base.OpsR Base.Rigid Geom.Kernels Geom.ScaleKernels.
+From OM Require Import Base.Ops Base.Vec3 Base.OpsR Base.Rigid Geom.Kernels Geom.ScaleKernels Geom.KernelProofs.
 Local Open Scope R_scope.
 
 Definition thrR : R := thr_1e10 OpsR.
@@ -64,12 +64,12 @@ Proof.
   replace (e * e * e / (e * e * e)) with 1 by (field; lra). rewrite atan_1. lra.
 Qed.
 
-Lemma solid_angle_abs_scale_refuted :
+Lemma octant_witness_abs :
   (forall d y1 y2 y3, coplanar_test OpsR d y1 y2 y3 = coplanar_abs d y1 y2 y3) ->
-  exists s x v1 v2 v3, 0 < s /\
-    solid_angle OpsR (scl s x) (scl s v1) (scl s v2) (scl s v3) <> solid_angle OpsR x v1 v2 v3.
+  solid_angle OpsR (scl (/ 10) (mkV 0 0 0)) (scl (/ 10) (mkV (/ 1000) 0 0)) (scl (/ 10) (mkV 0 (/ 1000) 0)) (scl (/ 10) (mkV 0 0 (/ 1000)))
+  <> solid_angle OpsR (mkV 0 0 0) (mkV (/ 1000) 0 0) (mkV 0 (/ 1000) 0) (mkV 0 0 (/ 1000)).
 Proof.
-  intros Habs. exists (/ 10), (mkV 0 0 0), (mkV (/ 1000) 0 0), (mkV 0 (/ 1000) 0), (mkV 0 0 (/ 1000)). split; [lra |].
+  intros Habs.
   replace (scl (/ 10) (mkV 0 0 0)) with (mkV 0 0 0) by (unfold scl; v3).
   replace (scl (/ 10) (mkV (/ 1000) 0 0)) with (mkV (/ 10000) 0 0) by (unfold scl; v3; lra).
   replace (scl (/ 10) (mkV 0 (/ 1000) 0)) with (mkV 0 (/ 10000) 0) by (unfold scl; v3; lra).
@@ -78,6 +78,27 @@ Proof.
   destruct (Rlt_dec (/ 10000 * / 10000 * / 10000) (/ 10000000000)) as [H1 | H1]; [| exfalso; apply H1; lra].
   destruct (Rlt_dec (/ 1000 * / 1000 * / 1000) (/ 10000000000)) as [H2 | H2]; [exfalso; lra |].
   assert (0 < PI) by apply PI_RGT_0. lra.
+Qed.
+
+Lemma solid_angle_abs_scale_refuted :
+  (forall d y1 y2 y3, coplanar_test OpsR d y1 y2 y3 = coplanar_abs d y1 y2 y3) ->
+  exists s x v1 v2 v3, 0 < s /\
+    solid_angle OpsR (scl s x) (scl s v1) (scl s v2) (scl s v3) <> solid_angle OpsR x v1 v2 v3.
+Proof.
+  intros Habs. exists (/ 10), (mkV 0 0 0), (mkV (/ 1000) 0 0), (mkV 0 (/ 1000) 0), (mkV 0 0 (/ 1000)). split; [lra |].
+  apply octant_witness_abs; exact Habs.
+Qed.
+
+(* the same witness refutes analyticD3::f: its three components sum to the solid angle (C16: KernelProofs) *)
+Lemma analyticD3_abs_scale_refuted :
+  (forall d y1 y2 y3, coplanar_test OpsR d y1 y2 y3 = coplanar_abs d y1 y2 y3) ->
+  exists s v0 v1 v2 x, 0 < s /\
+    analyticD3_f OpsR (analyticD3_init OpsR (scl s v0) (scl s v1) (scl s v2)) (scl s x)
+    <> analyticD3_f OpsR (analyticD3_init OpsR v0 v1 v2) x.
+Proof.
+  intros Habs. exists (/ 10), (mkV (/ 1000) 0 0), (mkV 0 (/ 1000) 0), (mkV 0 0 (/ 1000)), (mkV 0 0 0). split; [lra |].
+  intros Heq. apply (octant_witness_abs Habs).
+  rewrite <- !D3_components_sum_to_solid_angle_lemma. cbv zeta. rewrite Heq. reflexivity.
 Qed.
 
 (* which form does Geom/Kernels.v (and so the code it transcribes) have?  Provable exactly one way at any time. *)
